@@ -164,6 +164,10 @@ def _shard_entry(args):
     return out
 
 
+class _StopShrinking(BaseException):
+    pass
+
+
 def run_hypothesis(prop, strategy, max_examples, seed, rec, shrink=True, stateful=False):
     """Run one Hypothesis search in this process.
 
@@ -193,11 +197,9 @@ def run_hypothesis(prop, strategy, max_examples, seed, rec, shrink=True, statefu
         # answered from the cache of cases already seen to fail (so the final replay still fails)
         # and everything else passes without being run.
         if state['t_first'] is not None and time.time() - state['t_first'] > budget:
-            v = state['cache'].get(digest(case))
-            if v is not None:
-                last['v'] = v
-                raise v
-            return
+            # not an Exception: Hypothesis lets it through, which ends the search at once with the best case so far
+            # (answering the remaining candidates from a cache still costs their generation - minutes for histories)
+            raise _StopShrinking()
         try:
             prop(case, rec)
         except Violation as v:
@@ -214,7 +216,7 @@ def run_hypothesis(prop, strategy, max_examples, seed, rec, shrink=True, statefu
 
     try:
         test()
-    except Violation:
+    except (Violation, _StopShrinking):
         v = last['v']
         return {'facet': v.facet, 'detail': v.detail, 'case': jsonable(v.case), 'extra': jsonable(v.extra)}
     return None
